@@ -140,32 +140,32 @@ def rule_inf1(A: Analysis, rep):
     w = A.fn(EXE + "_InflightOperations.wait_for_next_op")
     g = A.cfg(w, "plain")
     waits = [n for n in g.nodes if n.kind == "stmt" and A.calls_in(n.ast, "SigchldHelper.wait")]
-    ok = len(waits) == 1 and isinstance(waits[0].ast, ast.Assign) and isinstance(waits[0].ast.targets[0], ast.Tuple)
-    if not ok:
+    ok = bool(waits) and all(isinstance(n.ast, ast.Assign) and isinstance(n.ast.targets[0], ast.Tuple) and len(n.ast.targets[0].elts) == 2 for n in waits)
+    names = {tuple(norm(x) for x in n.ast.targets[0].elts) for n in waits} if ok else set()
+    if not ok or len(names) != 1:
         rep.bad("INF1", "wait loop", w.node, "no `pid, returncode = SigchldHelper.instance().wait()`")
         return
-    pid, rc = [norm(x) for x in waits[0].ast.targets[0].elts]
-    loops = [l for l in walk_local(w.node) if isinstance(l, ast.While) and id(waits[0].ast) in {id(x) for x in ast.walk(l)}]
-    ok = False
-    if len(loops) == 1:
-        l = loops[0]
-        brks = [b for b in walk_local(l) if isinstance(b, ast.Break)]
-        if isinstance(l.test, ast.Constant) and l.test.value is True and len(brks) == 1 and isinstance(brks[0]._parent, ast.If):
-            ok = A.dnf(brks[0]._parent.test, True, w) == [frozenset({("in(%s,self._processes)" % pid, True)})]
-        elif not isinstance(l.test, ast.Constant):
-            ok = A.dnf(l.test, True, w) == [frozenset({("in(%s,self._processes)" % pid, False)})]
-    rep.check(ok, "INF1", "unrelated pids are skipped, own pids end the wait", w.node, "loops until the reaped pid is a registered one",
-              "wait_for_next_op does not loop until the reaped pid is one of its own processes")
+    pid, rc = names.pop()
+    # the entry that is looked up / removed / returned is the one of a pid that IS registered:
+    look = [n for n in g.nodes if n.kind == "stmt" and isinstance(n.ast, ast.Assign) and norm(n.ast.value) == "self._processes[%s]" % pid]
+    ok = len(look) == 1
+    if ok:
+        gs = A.path_guards(g, g.entry, look[0], w, inline_preds=True)
+        ok = bool(gs) and all(("in(%s,self._processes)" % pid, True) in c for c in gs)
+        # and that pid comes from the helper only
+        others = [d for d in A.defs(w, pid) if not (isinstance(d, ast.Assign) and A.calls_in(d.value, "SigchldHelper.wait"))]
+        ok = ok and not others
+    rep.check(ok, "INF1", "unrelated pids are skipped, own pids end the wait", w.node, "the entry is looked up only under `pid in self._processes`, pid coming from SigchldHelper.wait()",
+              "wait_for_next_op can look up / return an entry for a pid that is not one of its own processes")
     body = [norm(s) for s in w.node.body]
-    need = ["handle, task = self._processes[%s]" % pid, "del self._processes[%s]" % pid, "handle.returncode = %s" % rc]
-    # tolerate other local names
-    tup = [s for s in w.node.body if isinstance(s, ast.Assign) and isinstance(s.targets[0], ast.Tuple) and norm(s.value) == "self._processes[%s]" % pid]
+    tup = [n.ast for n in look if isinstance(n.ast.targets[0], ast.Tuple)]
     ok = len(tup) == 1
     if ok:
         hv, tv = [norm(x) for x in tup[0].targets[0].elts]
-        ok = "del self._processes[%s]" % pid in body and "%s.returncode = %s" % (hv, rc) in body
-        r = [x for x in w.node.body if isinstance(x, ast.Return)]
-        ok = ok and len(r) == 1 and norm(r[0].value) == "(%s, %s)" % (hv, tv)
+        dels_ = [n for n in g.nodes if n.kind == "stmt" and norm(n.ast) == "del self._processes[%s]" % pid]
+        sets_ = [n for n in g.nodes if n.kind == "stmt" and norm(n.ast) == "%s.returncode = %s" % (hv, rc)]
+        r = [n for n in g.nodes if n.kind == "stmt" and isinstance(n.ast, ast.Return) and norm(n.ast.value) in ("(%s, %s)" % (hv, tv),)]
+        ok = len(dels_) == 1 and len(sets_) == 1 and len(r) == 1 and g.all_paths_pass(look[0], r[0], dels_, skip_labels=skip) and g.all_paths_pass(look[0], r[0], sets_, skip_labels=skip)
     rep.check(ok, "INF1", "status attributed to that pid's handle only", w.node, "the entry of the reaped pid gets the status, is removed, and is returned",
               "wait_for_next_op does not (look up, delete, fill, return) exactly the reaped pid's entry")
     dels = [f.fq.rsplit(".", 1)[1] for f in A.prog.scan_functions for s in walk_local(f.node)
@@ -174,7 +174,7 @@ def rule_inf1(A: Analysis, rep):
     rep.check(sorted(dels) == ["clear", "wait_for_next_op"], "INF1", "entries leave the table only when reaped (or on reset)", None, "", "_processes entries are removed in %s" % sorted(dels), deep=False)
     # sync ops
     first = w.node.body[0] if not (isinstance(w.node.body[0], ast.Expr) and isinstance(w.node.body[0].value, ast.Constant)) else w.node.body[1]
-    ok = isinstance(first, ast.If) and A.dnf(first.test, True, w) == [frozenset({("empty(self._sync_ops)", False)})] and \
+    ok = isinstance(first, ast.If) and A.dnf(first.test, True, w, inline_preds=True) == [frozenset({("empty(self._sync_ops)", False)})] and \
         len(first.body) == 1 and norm(first.body[0]) in ("return self._sync_ops.pop()", "return self._sync_ops.pop(0)")
     rep.check(ok, "INF1", "sync ops are returned directly", w.node, "", "wait_for_next_op no longer returns a pending synchronous op first")
     # handle.pid = process.pid
